@@ -14,19 +14,22 @@ LEVEL_TEXT = ("All interleavings (up to the depth bound) of SET_ADDRESS/SET_CONF
               "after every transaction and watched on every cycle.")
 
 A1, A2 = 0x33, 0x35
+A3, A3_ALIAS = 0x64, 0x24     # an address above 63 and the address it would alias to if bit 6 were dropped
 REQS = {
     "SA33": U.setup_bytes(0x00, 5, A1, 0, 0),
     "SAB5": U.setup_bytes(0x00, 5, 0x0080 | A2, 0, 0),     # bit 7 of wValue must be ignored: address = low 7 bits
+    "SA64": U.setup_bytes(0x00, 5, A3, 0, 0),
     "SC1": U.setup_bytes(0x00, 9, 1, 0, 0),
     "SC2": U.setup_bytes(0x00, 9, 2, 0, 0),
     "SC85": U.setup_bytes(0x00, 9, 0x85, 0, 0),            # a configuration value that needs all eight bits
     "GST": U.setup_bytes(0x80, 0, 0, 0, 2),                 # GET_STATUS: a request that must change nothing
 }
 ADDRS = (0, A1, A2)
+ADDRS_HI = (0, A3, A3_ALIAS)
 
 
 def configs(tier):
-    cs = [dict(gap=1, pace=1, reqs=["SA33", "SC1", "GST"]), dict(gap=3, pace=1, reqs=["SAB5", "SC85", "SA33"]),
+    cs = [dict(gap=1, pace=1, reqs=["SA33", "SC1", "GST"]), dict(gap=2, pace=1, reqs=["SA64", "SC1"], addrs="hi"), dict(gap=3, pace=1, reqs=["SAB5", "SC85", "SA33"]),
           dict(gap=2, pace=8, reqs=["SA33", "SC1"])]
     if tier == "thorough":
         cs += [dict(gap=1, pace=1, reqs=["SA33", "SAB5", "SC1", "SC2", "SC85", "GST"]), dict(gap=6, pace=2, reqs=["SAB5", "SC1", "GST"])]
@@ -44,6 +47,7 @@ class AddrSpec(Spec):
         self.time_budget = 600 if tier == "quick" else 1500   # safety net only
         self.host = Host(gap=cfg["gap"], pace=cfg["pace"], extra=dict(connect=1, valid=1, payload=0xA7))
         self.reqs = cfg["reqs"]
+        self.addrs = ADDRS_HI if cfg.get("addrs") == "hi" else ADDRS
 
     def build(self):
         from luna.gateware.usb.usb2.endpoints.stream import USBStreamInEndpoint
@@ -66,7 +70,7 @@ class AddrSpec(Spec):
     def actions(self, env):
         addr, cfg, pending, stage = env
         acts = []
-        for a in ADDRS:
+        for a in self.addrs:
             for r in self.reqs: acts.append(("setup", a, r))
             acts.append(("in", a, 1, 1)); acts.append(("in", a, 1, 0))
             if stage in (1, 2):
